@@ -5,7 +5,7 @@ from .. import cfg
 from ..anchors import dispatch_cone, handler, action_closures, action_instances, is_user_code
 from ..effects import Cone, classify, is_leaf, is_panicking_api, norm, _tsv
 from ..facts import strip_generics, keyname, AnchorLost
-from ..flow import flow, fold, strip, deep_strip, show, mentions
+from ..flow import flow, fold, strip, deep_strip, show, mentions, deps
 from ..conds import facts_at, truth
 
 FORBIDDEN = {"ALLOC", "FREE", "LOCK", "WAIT", "ALLOCFREE_UNKNOWN", "SYSCALL", "UNCLASSIFIED"}
@@ -66,9 +66,16 @@ def rule_a(ctx):
         else:
             ctx.bad(rid, key, "leaf with unknown class %s" % cls, None, {"call_chain": cone.chain_text(iid)})
     # indirect calls: only the chained previous handler (address read from the saved sigaction)
-    for (fi, bb, t) in cone.indirect:
+    # (judged in the dispatcher's normal form where the frame is part of it: the pointer may travel through a private helper or a small enum)
+    from . import reg
+    from .. import inline
+    h0, hn = reg.handler_n(F)
+    in_norm = set(inline.all_inlined(hn)) | {h0.id}
+    ind = [(fi, bb, t) for (fi, bb, t) in cone.indirect if fi.id not in in_norm]
+    ind += [(hn, bb, t) for bb, t in hn.calls() if t.get("indirect")]
+    for (fi, bb, t) in ind:
         ex = flow(fi).term_operand(bb, t["fop"])
-        okk = any(mentions(e, lambda x: x[0] == "field" and x[2] in ("sa_sigaction", "sa_handler")) for e in ex)
+        okk = bool(ex) and all(any(x[0] == "field" and x[1] in ("sa_sigaction", "sa_handler") for x in deps(fi, [e])) for e in ex)
         ctx.check(okk, rid, "indirect:%s" % keyname(fi.name),
                   "indirect call in %s is the chained previous handler (pointer read from the saved sigaction)" % fi.name,
                   t["sp"], {"fn_pointer": [show(e) for e in ex]})
@@ -399,13 +406,28 @@ def rule_c(ctx, cone=None, rid="C03.c", floor=6, scope="dispatch"):
     ctx.rule(rid, "every explicit panic site (MIR Assert, panic call, documented-panicking std API) in a workspace-local "
                   "frame of the cone is discharged by a checked rule or is an audited entry; a new one is a violation", floor=floor)
     aud = _audited(scope)
+    # private helpers an action closure forwards to are judged inside the closure's normal form (their parameters are then the captures)
+    from .nf import NF
+    from .. import inline
+    frames = []
+    covered = set()
+    for r in cone.roots:
+        ri = r if hasattr(r, "id") else F.inst[r]
+        if ri.kind == "closure" and ri.local and ri.body is not None and not is_user_code(ri):
+            n = NF(F, ri)
+            inl = set(inline.all_inlined(n))
+            if inl:
+                covered |= inl | {ri.id}
+                frames.append((ri, n))
     for m in cone.members:
-        if not (m.local and m.body is not None) or is_user_code(m):
+        if not (m.local and m.body is not None) or is_user_code(m) or m.id in covered:
             continue
+        frames.append((m, m))
+    for m0, m in frames:
         for site in panic_sites(F, m):
             kind, key, bb, sp, info = site
             okk, why = _discharge(ctx, F, m, site)
-            full = "%s@%s" % (key, keyname(m.name))
+            full = "%s@%s" % (key, keyname(inline.origin_of(F, m, bb).name if m is not m0 else m0.name))
             if okk:
                 ctx.ok(rid, full, "panic site discharged: %s" % why, sp)
                 continue
